@@ -65,10 +65,56 @@ class Unk(Opaque):
 
 
 class Pos(Unk):
-    """A real scalar known to be strictly positive (norm of an array with generic non-zero entries)."""
+    """A real scalar known to be strictly positive (norm of an array with generic non-zero entries), with a decimal order
+    of magnitude: generic entries are O(1) (scale 0); multiplying by 1e-10 gives scale -10.  Two positive quantities
+    whose scales differ by at least 3 decades are ordered "by a margin"; closer ones are not compared."""
+
+    def __init__(self, why="positive", scale=0.0):
+        super().__init__(why)
+        self.scale = scale
 
     def __call__(self, *a, **k):
         return Unk(self.why)
+
+
+def _pos_scale(x):
+    import math
+    if isinstance(x, Pos):
+        return x.scale
+    if isinstance(x, (int, float)) and not isinstance(x, bool) and x > 0 and x == x and x != float("inf"):
+        return math.log10(x)
+    return None
+
+
+def pos_arith(op, a, b):
+    """Arithmetic on strictly positive quantities (None: result not known to be positive)."""
+    sa, sb = _pos_scale(a), _pos_scale(b)
+    if op is operator.pow and isinstance(a, Pos) and isinstance(b, (int, float)) and not isinstance(b, bool):
+        return Pos("power", a.scale * b)
+    if sa is None or sb is None:
+        if op is operator.add:
+            for p, o in ((a, b), (b, a)):
+                if isinstance(p, Pos) and isinstance(o, (int, float)) and not isinstance(o, bool) and o == 0:
+                    return Pos("sum", p.scale)
+        if op is operator.mul and (a == 0 or b == 0) and not isinstance(a, Unk) or \
+                (op is operator.mul and not isinstance(b, Unk) and b == 0):
+            return 0.0
+        return None
+    if op is operator.mul:
+        return Pos("product", sa + sb)
+    if op is operator.truediv:
+        return Pos("quotient", sa - sb)
+    if op is operator.add:
+        return Pos("sum", max(sa, sb))
+    return None
+
+
+def pos_compare(op, a, b):
+    """Order of two strictly positive quantities when their magnitudes differ by a margin (>= 3 decades); else None."""
+    sa, sb = _pos_scale(a), _pos_scale(b)
+    if sa is None or sb is None or abs(sa - sb) < 3:
+        return None
+    return op(1, 0) if sa > sb else op(0, 1)
 
 
 class DType:
@@ -347,7 +393,7 @@ class DescDomain(BaseDomain):
         def any_(a, *x, **k):
             if isinstance(a, ArrDesc) and a.kind == "bool" and a.val in ("true", "false") and not x and not k:
                 return a.val == "true" and a.size > 0
-            if isinstance(a, ArrDesc) and a.val in ("zero", "nonzero", "pos") and not x and not k:
+            if isinstance(a, ArrDesc) and a.val in ("zero", "nonzero", "pos", "somenz", "somepos") and not x and not k:
                 return a.val != "zero" and a.size > 0
             if isinstance(a, bool):
                 return a
@@ -406,8 +452,8 @@ class DescDomain(BaseDomain):
                 if isinstance(a, ArrDesc) and not x and not k and a.size > 0:
                     if a.val == "zero":
                         return 0.0
-                    if a.val == "pos":
-                        return Pos(f"{name} of strictly positive entries")
+                    if a.val == "pos" or (a.val == "somepos" and name in ("sum", "max", "amax", "mean", "nansum")):
+                        return Pos(f"{name} of non-negative entries, at least one positive")
                 return Unk(f"np.{name}")
             return f
         for n in ("sum", "max", "min", "mean", "amax", "amin", "nansum"):
@@ -466,23 +512,32 @@ class DescDomain(BaseDomain):
         t["ndim"] = lambda a: a.ndim if isinstance(a, ArrDesc) else Unk("np.ndim")
         t["size"] = lambda a, *x: a.size if isinstance(a, ArrDesc) and not x else Unk("np.size")
 
-        def elementwise(kind=None, valmap=None):
+        def elementwise(kind=None, valmap=None, fname=None):
             def f(a, *x, **k):
                 if "out" in k and isinstance(k["out"], ArrDesc) and k["out"].owner:
                     self._interp.note_effect(f"out= store into argument {k['out'].owner}")
                 if isinstance(a, ArrDesc):
                     return a.fresh(kind=kind or a.kind, val=valmap.get(a.val) if valmap else None)
                 if isinstance(a, Pos) and valmap and valmap.get("pos") == "pos":
-                    return Pos("positive")
+                    return Pos("positive", a.scale * (0.5 if fname == "sqrt" else 2.0 if fname == "square" else 1.0))
+                if fname in ("sqrt", "abs", "square") and isinstance(a, (int, float)) and not isinstance(a, bool):
+                    if fname == "sqrt" and a >= 0:
+                        return float(a) ** 0.5
+                    if fname == "abs":
+                        return abs(a)
+                    if fname == "square":
+                        return a * a
                 return Unk("np.elementwise")
             return f
         for n in ("exp", "log", "floor", "ceil", "round", "clip", "nan_to_num"):
             t[n] = elementwise()
-        t["sqrt"] = elementwise(valmap={"zero": "zero", "pos": "pos"})
-        t["square"] = elementwise(valmap={"zero": "zero", "pos": "pos", "nonzero": "pos"})
+        t["sqrt"] = elementwise(valmap={"zero": "zero", "pos": "pos", "somepos": "somepos"}, fname="sqrt")
+        t["square"] = elementwise(valmap={"zero": "zero", "pos": "pos", "nonzero": "pos", "somenz": "somepos",
+                                          "somepos": "somepos"}, fname="square")
         t["negative"] = elementwise(valmap={"zero": "zero", "nonzero": "nonzero", "pos": "nonzero"})
         t["sign"] = elementwise(valmap={"zero": "zero", "nonzero": "nonzero", "pos": "pos"})
-        t["abs"] = t["absolute"] = t["fabs"] = elementwise("real", valmap={"zero": "zero", "nonzero": "pos", "pos": "pos"})
+        t["abs"] = t["absolute"] = t["fabs"] = elementwise("real", valmap={"zero": "zero", "nonzero": "pos", "pos": "pos", "somenz": "somepos", "somepos": "somepos"},
+                                                              fname="abs")
 
         def fill_diagonal(a, v, **k):
             if isinstance(a, ArrDesc) and a.owner:
@@ -521,8 +576,37 @@ class DescDomain(BaseDomain):
                                          "max": 1.7976931348623157e308, "min": -1.7976931348623157e308,
                                          "resolution": 1e-15})
         t["finfo"] = lambda *a, **k: finfo
+
+        def shape_fn(name):
+            def f(a, *x, **k):
+                if isinstance(a, ArrDesc) and all(isinstance(v, (int, tuple, list)) for v in x) and \
+                        all(isinstance(v, (int, tuple, list)) for v in k.values()):
+                    try:
+                        sh = getattr(_np, name)(_np.empty(a.shape, dtype=bool), *x, **k).shape
+                    except (ValueError, IndexError) as ex:
+                        raise ModelError(f"np.{name}: {ex}")
+                    return a.view(sh)
+                return Unk(f"np.{name}")
+            return f
+        for n in ("moveaxis", "swapaxes", "rollaxis", "expand_dims", "squeeze", "atleast_2d", "atleast_1d"):
+            t[n] = shape_fn(n)
+
+        def join_fn(name):
+            def f(seq, *x, **k):
+                if isinstance(seq, (list, tuple)) and seq and all(isinstance(v, ArrDesc) for v in seq) and \
+                        all(isinstance(v, int) for v in x) and all(isinstance(v, int) for v in k.values()):
+                    try:
+                        sh = getattr(_np, name)([_np.empty(v.shape, dtype=bool) for v in seq], *x, **k).shape
+                    except (ValueError, IndexError) as ex:
+                        raise ModelError(f"np.{name}: {ex}")
+                    kind = max((v.kind for v in seq), key=lambda kk: KIND_RANK[kk])
+                    return A(kind, sh)
+                return Unk(f"np.{name}")
+            return f
+        for n in ("stack", "concatenate", "hstack", "vstack", "column_stack", "dstack"):
+            t[n] = join_fn(n)
         def norm(a, *x, **k):
-            if isinstance(a, ArrDesc) and a.val in ("nonzero", "pos") and a.size > 0 and not x:
+            if isinstance(a, ArrDesc) and a.val in ("nonzero", "pos", "somenz", "somepos") and a.size > 0 and not x:
                 return Pos("norm of a generic non-zero array")
             if isinstance(a, ArrDesc) and a.val == "zero" and not x:
                 return 0.0
@@ -702,7 +786,27 @@ class DescDomain(BaseDomain):
             return bool(v)
         return super().truth(v)
 
+    @staticmethod
+    def _scaled_val(val, other, op):
+        """value class of arr*c, arr/c, arr**p for a number / positive quantity"""
+        if op is operator.pow:
+            if isinstance(other, (int, float)) and other == 2:
+                return {"zero": "zero", "nonzero": "pos", "pos": "pos", "somenz": "somepos", "somepos": "somepos"}.get(val)
+            return None
+        positive = isinstance(other, Pos) or (isinstance(other, (int, float)) and other > 0)
+        nonzero = positive or (isinstance(other, (int, float)) and other != 0)
+        if op in (operator.mul, operator.truediv) and nonzero:
+            if val in ("zero", "nonzero", "somenz"):
+                return val
+            if val in ("pos", "somepos"):
+                return val if positive else {"pos": "nonzero", "somepos": "somenz"}[val]
+        return None
+
     def binop(self, interp, op, a, b, node):
+        if isinstance(a, Pos) or isinstance(b, Pos):
+            if not isinstance(a, ArrDesc) and not isinstance(b, ArrDesc):
+                r = pos_arith(op, a, b)
+                return r if r is not None else Unk("op")
         if isinstance(a, ArrDesc) or isinstance(b, ArrDesc):
             if (isinstance(a, Unk) and not isinstance(a, Pos)) or (isinstance(b, Unk) and not isinstance(b, Pos)):
                 return Unk("array op")
@@ -714,15 +818,35 @@ class DescDomain(BaseDomain):
                             raise ModelError(f"matmul: shapes {a.shape} and {b.shape} not aligned")
                         return ArrDesc(kind, (a.shape[0], b.shape[1]))
                     return Unk("matmul")
-                return ArrDesc(kind, _bshape(a.shape, b.shape))
+                val = None
+                if op in (operator.sub, operator.add) and a.val == "zero" and b.val == "zero":
+                    val = "zero"
+                if op is operator.sub and a.root() is b.root() and a.sel is None and b.sel is None and a.shape == b.shape:
+                    dc, dt = a.conj ^ b.conj, a.tr ^ b.tr
+                    r = a.root()
+                    if not dc and not dt:
+                        val = "zero"
+                    elif dc and dt and r.ndim == 2 and r.shape[0] == r.shape[1]:
+                        # X - X^H: zero for a Hermitian X, every entry non-zero for generic entries, some entry non-zero
+                        # when only the diagonal (or only the off-diagonal part) breaks the symmetry
+                        if r.herm is True or r.val == "zero":
+                            val = "zero"
+                        elif r.generic:
+                            val = "nonzero"
+                        elif r.herm is False:
+                            val = "somenz"
+                return ArrDesc(kind, _bshape(a.shape, b.shape), val=val)
             arr, other = (a, b) if isinstance(a, ArrDesc) else (b, a)
-            if isinstance(other, Pos) and op in (operator.mul, operator.truediv):
-                return ArrDesc(arr.kind if arr.kind != "bool" else "real", arr.shape, val=arr.val)
+            if isinstance(other, Pos) and op in (operator.mul, operator.truediv) and (arr is a or op is operator.mul):
+                return ArrDesc(arr.kind if arr.kind != "bool" else "real", arr.shape, val=self._scaled_val(arr.val, other, op))
             if isinstance(other, (int, float, complex)):
                 kind = arr.kind
                 if isinstance(other, complex) and KIND_RANK[kind] < 2:
                     kind = "complex"
-                return ArrDesc(kind if kind != "bool" else "real", arr.shape)
+                val = None
+                if not isinstance(other, complex) and not isinstance(other, bool) and (arr is a or op is operator.mul):
+                    val = self._scaled_val(arr.val, other, op)
+                return ArrDesc(kind if kind != "bool" else "real", arr.shape, val=val)
             return Unk("array op")
         if isinstance(a, Unk) or isinstance(b, Unk):
             return Unk("op")
@@ -755,6 +879,10 @@ class DescDomain(BaseDomain):
             return op(1, 0)
         if isinstance(b, Pos) and isinstance(a, (int, float)) and not isinstance(a, bool) and a <= 0:
             return op(0, 1)
+        if isinstance(a, Pos) or isinstance(b, Pos):
+            r = pos_compare(op, a, b)
+            if r is not None:
+                return bool(r)
         if isinstance(a, Unk) or isinstance(b, Unk):
             return UNKNOWN(("comparison with unknown", getattr(a, "why", None) or getattr(b, "why", None)))
         if isinstance(a, ArrDesc) or isinstance(b, ArrDesc):
@@ -1315,7 +1443,11 @@ def summary_ishermitian(program):
         n_eff = len(interp.effects)
         try:
             try:
-                return interp.call_repo(FuncRef(fi), [A, tol], {})
+                r = interp.call_repo(FuncRef(fi), [A, tol], {})
+                if isinstance(r, bool):
+                    return r
+                del interp.effects[n_eff:]
+                return interp.domain.herm_flag(A)        # data-dependent answer in any spelling: the flag
             except (NeedChoice, UnknownTruth, Unsupported):
                 del interp.effects[n_eff:]
                 r = interp.domain.herm_flag(A)
